@@ -833,18 +833,21 @@ func (e *env) roundTrip(vb *vblock) {
 // and the bare handler are asked for every block by id and by height: id, all
 // fields and the marshalled bytes must be those recorded at finalization, and
 // the re-marshalled bytes must decode again on the other node.
-func (e *env) storeRoundTrip(gs string, w module.Wallet) {
+func (e *env) storeRoundTrip() {
 	c := e.c
-	R := bfix.NewNode(e.t, test.UseGenesis(gs), test.UseWallet(w), test.UseDB(e.A.Chain.Database()))
-	defer R.Close()
-	curMu.Lock()
-	cleanup = append(cleanup, R.Base)
-	curMu.Unlock()
-	if errs := e.t.Errors(); len(errs) > 0 {
-		c.Violation("roundtrip.store.restart-failed", map[string]interface{}{"errors": errs, "case": e.ci})
-		return
+	// a second manager over the producer's chain and database = what a restart builds
+	// (not a second test.Node: the fixture dereferences a nil manager when NewManager fails)
+	var rbm module.BlockManager
+	var rerr error
+	pan, where := guard(func() { rbm, rerr = gblock.NewManager(e.A.Chain, nil, nil) })
+	if pan != "" || rerr != nil || rbm == nil {
+		c.Violation("roundtrip.store.restart-failed", map[string]interface{}{"case": e.ci, "err": fmt.Sprint(rerr), "panic": pan, "at": where,
+			"last_block": hexs(e.vbs[len(e.vbs)-1].enc)})
+		rbm = nil
+	} else {
+		defer rbm.Term()
 	}
-	handler := gblock.NewBlockV2Handler(R.Chain)
+	handler := gblock.NewBlockV2Handler(e.A.Chain)
 	for _, vb := range e.vbs {
 		blk := vb.blk
 		c.Note("store-roundtrip height=%d id=%x", blk.Height(), blk.ID())
@@ -852,11 +855,13 @@ func (e *env) storeRoundTrip(gs string, w module.Wallet) {
 			via string
 			get func() (module.Block, error)
 		}
-		for _, sc := range []src{
-			{"restarted-manager.GetBlock", func() (module.Block, error) { return R.BM.GetBlock(blk.ID()) }},
-			{"restarted-manager.GetBlockByHeight", func() (module.Block, error) { return R.BM.GetBlockByHeight(blk.Height()) }},
-			{"handler.GetBlock", func() (module.Block, error) { return handler.GetBlock(blk.ID()) }},
-		} {
+		srcs := []src{{"handler.GetBlock", func() (module.Block, error) { return handler.GetBlock(blk.ID()) }}}
+		if rbm != nil {
+			srcs = append(srcs,
+				src{"restarted-manager.GetBlock", func() (module.Block, error) { return rbm.GetBlock(blk.ID()) }},
+				src{"restarted-manager.GetBlockByHeight", func() (module.Block, error) { return rbm.GetBlockByHeight(blk.Height()) }})
+		}
+		for _, sc := range srcs {
 			c.Eval(1)
 			var re module.Block
 			var err error
@@ -987,7 +992,7 @@ func run(c *ev.Ctx) {
 		for _, vb := range e.vbs {
 			e.roundTrip(vb)
 		}
-		e.storeRoundTrip(e.gs, e.w)
+		e.storeRoundTrip()
 		for bi, vb := range e.vbs {
 			if e.dead() {
 				return
